@@ -96,6 +96,9 @@ func init() {
 			"thorough additionally enumerates every one-dimensional segmentation (split offset, piece size, read-buffer size, write mode, flush, writer flavour) on the small corpus that covers every adapter path; " +
 			"distinct = (form>target/adapter path/shape, schedule hash); non-trivial = at least one request message decoded by the backend and one response message decoded by the client",
 		Gen: func(c *Chooser, tier string) *Plan {
+			if c.Prob(0.12) {
+				return genContentREST(c)
+			}
 			p := genScenario(c, ScenOpts{Segment: true, MaxMsgs: 3, MaxBytes: 200})
 			if p != nil && c.Prob(0.3) {
 				// a limit that every single message fits under in every encoding, but two messages together do not: a bound
@@ -217,4 +220,90 @@ func sameStructure(a, b *BackendObs) bool {
 		}
 	}
 	return true
+}
+
+// genContentREST draws a REST call of a *streaming* method of the generated ContentService, where google.api.HttpBody
+// carries the stream: an upload (client stream; the request body is the file) or a download (server stream; the response
+// body is the concatenation of the messages' data), towards an RPC backend, under drawn segmentations of all three streams.
+func genContentREST(c *Chooser) *Plan {
+	svc := ServicePlan{Schema: "content", MaxMsg: Pick(c, uint32(1<<20), 1<<17), Protocols: genSubset(c, allTargetProtocols, true)}
+	if c.Bool() {
+		svc.Codecs = Pick(c, []string{"proto"}, []string{"json"}, []string{"proto", "json"})
+	}
+	name := Pick(c, "a.bin", "dir/file.txt", "x", "deep/er/path/f")
+	hb := func(ct string, data []byte) []byte {
+		// google.api.HttpBody{content_type: 1, data: 2}
+		var b []byte
+		if ct != "" {
+			b = append(b, 0x0a, byte(len(ct)))
+			b = append(b, ct...)
+		}
+		if len(data) > 0 {
+			b = append(b, 0x12)
+			b = appendVarint(b, uint64(len(data)))
+			b = append(b, data...)
+		}
+		return b
+	}
+	field := func(num int, payload []byte) []byte {
+		b := []byte{byte(num<<3 | 2)}
+		b = appendVarint(b, uint64(len(payload)))
+		return append(b, payload...)
+	}
+	var cp ClientPlan
+	var bp BackendPlan
+	if c.Bool() {
+		n := Pick(c, 0, 1, 7, 300, c.Range(1, 3000), 70000)
+		cp = ClientPlan{Form: FormREST, HTTP: Pick(c, 1, 2), Service: "content", Method: "Upload", HTTPMethod: "POST", Path: "/" + name + ":upload",
+			ContentType: Pick(c, "application/octet-stream", "text/plain", "image/png"), RawBody: c.Bytes(n), HasRawBody: true, DeclareCL: Pick(c, "", "none", "none")}
+		cp.Msgs = []MsgSpec{{Data: []byte{}}}
+		bp.Resp.Msgs = []MsgSpec{{Data: []byte{}}} // google.protobuf.Empty
+	} else {
+		cp = ClientPlan{Form: FormREST, HTTP: Pick(c, 1, 2), Service: "content", Method: "Download", HTTPMethod: "GET", Path: "/" + name + ":download"}
+		for i, k := 0, c.Range(0, 4); i < k; i++ {
+			data := c.Bytes(Pick(c, 0, 1, 40, c.Range(1, 2000)))
+			ct := "application/octet-stream"
+			if i > 0 && c.Bool() {
+				ct = ""
+			}
+			bp.Resp.Msgs = append(bp.Resp.Msgs, MsgSpec{Data: field(1, hb(ct, data)), Compressed: c.Bool()})
+		}
+		bp.Resp.Compression = Pick(c, "", "gzip")
+	}
+	cp.Accept = genSubset(c, allCompressions, false)
+	bp.Resp.TrailerStyle = Pick(c, "announce", "prefix")
+	cp.Deliveries = genSegSizes(c)
+	cp.EOFWithData = c.Prob(0.3)
+	bp.ReadSizes = genSegSizes(c)
+	switch c.Intn(4) {
+	case 0:
+	case 1:
+		bp.Resp.WriteMode = "frames"
+	case 2:
+		bp.Resp.WriteMode = "prefix-payload"
+	default:
+		bp.Resp.WriteMode, bp.Resp.WriteSizes = "sizes", genSegSizes(c)
+		if bp.Resp.WriteSizes == nil {
+			bp.Resp.WriteSizes = []int{1}
+		}
+	}
+	bp.Resp.FlushEvery = Pick(c, 0, 1, 2)
+	cp.RW = Pick(c, "", "", "flusherr", "unwrap")
+	if n := len(cp.RawBody); n > 2048 {
+		k := n/512 + 1
+		for _, sizes := range [][]int{cp.Deliveries, bp.ReadSizes} {
+			for i := range sizes {
+				sizes[i] *= k
+			}
+		}
+	}
+	return &Plan{Config: ConfigPlan{Services: []ServicePlan{svc}}, RPCs: []RPCPlan{{Client: cp, Backend: bp}}, Sched: genSched(c), Pool: genPool(c), Note: "rest-stream"}
+}
+
+func appendVarint(b []byte, v uint64) []byte {
+	for v >= 0x80 {
+		b = append(b, byte(v)|0x80)
+		v >>= 7
+	}
+	return append(b, byte(v))
 }
